@@ -1,8 +1,61 @@
 (* C02 — the downgrade plan removes exactly the applied dependents, children first. *)
 From AV Require Export Model.Plan Spec.C01.
 
-(* history, resolved target (None = base), branch revision of the request (if any), current rows *)
-Definition input02 : Type := graph * option N * option N * list N.
+(* the request as written, structured (the harness renders it to the string it passes to alembic) *)
+Inductive tgt02 :=
+| DId (x:N)                 (* a full or unambiguous partial revision id *)
+| DBase                     (* "base" *)
+| DRelCur (k:nat)           (* "-k" *)
+| DRelId (x:N) (k:nat)      (* "id-k" *)
+| DLabelAt (l:N) (x:N)      (* "label@id" *)
+| DOther.
+
+(* history, request, resolved target (None = base), branch revision of the request (if any), current rows *)
+Definition input02 : Type := graph * tgt02 * option N * option N * list N.
+
+(* reference meaning of a downgrade request (docs: tutorial "Relative Migration Identifiers",
+   branches "Branch Labels"): the revision to end at, and the branch the request is restricted to *)
+Inductive ref2 := R2Ok (target branch : option N) | R2Error | R2Unknown.
+Fixpoint walk_down (G:graph) (k:nat) (cur : option N) : option (option N) :=     (* None = walked past base / ambiguous *)
+  match k with
+  | O => Some cur
+  | S k' => match cur with
+            | None => None
+            | Some x => match down G x with
+                        | [] => walk_down G k' None
+                        | [p] => walk_down G k' (Some p)
+                        | _ => None
+                        end
+            end
+  end.
+Definition ref_down (G:graph) (Cur : list N) (t:tgt02) : ref2 :=
+  match t with
+  | DId x => R2Ok (Some x) None
+  | DBase => R2Ok None None
+  | DRelId x k => match k with O => R2Unknown | _ => match walk_down G k (Some x) with Some r => R2Ok r None | None => R2Error end end
+  | DRelCur k =>
+      match k, Cur with
+      | O, _ => R2Unknown
+      | _, [] => R2Error
+      | _, [c] => match walk_down G k (Some c) with Some r => R2Ok r (Some c) | None => R2Error end
+      | _, _ => R2Unknown            (* "downgrade -1 from multiple heads is ambiguous" (deprecated usage) *)
+      end
+  | DLabelAt l x =>
+      match label_rev G l with
+      | None => R2Unknown
+      | Some lr => if on_branch G lr x then R2Ok (Some x) (Some lr)
+                   else R2Unknown    (* `downgrade label@rev` with rev off the branch: the code does not check it (noted under C16) *)
+      end
+  | DOther => R2Unknown
+  end.
+Definition optN_eqb (a b : option N) : bool :=
+  match a, b with Some x, Some y => N.eqb x y | None, None => true | _, _ => false end.
+Definition ref_agrees02 (G:graph) (Cur : list N) (t:tgt02) (target branch : option N) : bool :=
+  match ref_down G Cur t with
+  | R2Ok tg br => optN_eqb target tg && optN_eqb branch br
+  | R2Error => false
+  | R2Unknown => true
+  end.
 
 (* roots of the removal (Plan.roots_of): children by down_revision of the target; all bases for `base`;
    with a branch request and several roots, those on the branch *)
@@ -11,8 +64,9 @@ Definition input02 : Type := graph * option N * option N * list N.
 Definition DescOf (G:graph) (R : list N) (x:N) : Prop := exists r, In r R /\ Anc G x r.
 
 Definition C02_holds (i:input02) (out : pres (list N)) : Prop :=
-  let '(G, target, branch, Cur) := i in
+  let '(G, t, target, branch, Cur) := i in
   let R := roots_of G target branch in
+  ref_agrees02 G Cur t target branch = true /\
   match out with
   | POk plan =>
       NoDup plan /\
@@ -40,9 +94,10 @@ Fixpoint children_first (G:graph) (remaining plan : list N) : bool :=
       negb (existsb (fun c => memN r (all_down G c)) remaining') && children_first G remaining' rest
   end.
 Definition check_C02 (i:input02) (out : pres (list N)) : bool :=
-  let '(G, target, branch, Cur) := i in
+  let '(G, t, target, branch, Cur) := i in
   let R := roots_of G target branch in
   let expected := interN (descs G R) (ancs G Cur) in
+  ref_agrees02 G Cur t target branch &&
   match out with
   | POk plan =>
       nodupb plan && seteqN plan expected && children_first G (ancs G Cur) plan
@@ -55,9 +110,9 @@ Definition check_C02 (i:input02) (out : pres (list N)) : bool :=
   end.
 
 Definition corr_C02 (i:input02) (out : pres (list N)) : bool :=
-  let '(G, target, branch, Cur) := i in pres_list_eqb (downgrade_plan G target branch Cur) out.
+  let '(G, t, target, branch, Cur) := i in pres_list_eqb (downgrade_plan G target branch Cur) out.
 Definition opt_in (o:option N) (l:list N) : bool := match o with Some x => memN x l | None => true end.
 Definition inclass_C02 (i:input02) : bool :=
-  let '(G, target, branch, Cur) := i in
+  let '(G, t, target, branch, Cur) := i in
   wf_graphb G && subsetN Cur (ids G) && opt_in target (ids G) && opt_in branch (ids G).
-Definition model_C02 (i:input02) : pres (list N) := let '(G, target, branch, Cur) := i in downgrade_plan G target branch Cur.
+Definition model_C02 (i:input02) : pres (list N) := let '(G, t, target, branch, Cur) := i in downgrade_plan G target branch Cur.
